@@ -203,13 +203,35 @@ def hir_strs(h):
     return out
 
 
-def check_from(run_, F, sc, f, b, o):
+def conversions(sc):
+    """every function borrowed-declaration -> its owned twin, whatever it is called: {canon: (borrowed, owned)}"""
+    out = {}
+    for g in sc.fns:
+        if "{closure" in g.canon or len(g.locals) < 2 or getattr(g, "argc", 1) != 1:
+            continue
+        ret, a1 = g.locals[0]["ty"], g.locals[1]["ty"]
+        for b, o in PAIRS:
+            if ret == "schema::owned::" + o and re.match(r"^&('\w+ )?schema::%s$" % b, a1):
+                out[g.canon] = (b, o)
+    return out
+
+
+def check_from(run_, F, sc, f, b, o, chain=()):
     ab, ao = adt(sc, b, False), adt(sc, o, True)
-    # private helpers are analysed in place; the conversions themselves (From/Into impls) stay calls and are judged one by one
+    convs = conversions(sc)
+    # private helpers are analysed in place; the conversions themselves (any fn(&Borrowed) -> Owned) stay calls and are judged one by one
     eng = sym.Engine(F, max_visits=2, max_depth=8,
-                     inline=lambda g, ev: g.crate == "postcard_schema" and (g.impl_trait or "") not in ("core::convert::From", "core::convert::Into") and "{closure" not in g.canon)
+                     inline=lambda g, ev: g.crate == "postcard_schema" and g.canon not in convs and "{closure" not in g.canon)
     paths = [p for p in eng.run(f) if p.status == "return"]
     src = ("param", 1, f.locals[1]["ty"])
+    # a conversion that only forwards its argument to another conversion of the same pair is judged through that one
+    if len(paths) == 1 and paths[0].ret[0] == "call" and not paths[0].pc:
+        e = tbl.event_by_id(paths[0], paths[0].ret[1])
+        g = F.fn_by_canon((e.get("callee") or {}).get("canon") or "") if e else None
+        if g is not None and convs.get(g.canon) == (b, o) and g.canon not in chain and g is not f \
+                and len(e["args"]) == 1 and norm(e["args"][0]) in (src, ("init", ("P", src)), ("ref", ("P", src))):
+            run_.note("F: %s forwards to %s" % (f.canon, g.canon)) if hasattr(run_, "note") else None
+            return check_from(run_, F, sc, g, b, o, chain + (f.canon,))
     seen = set()
     for p in paths:
         if ab["kind"] == "Enum":
@@ -236,7 +258,7 @@ def check_from(run_, F, sc, f, b, o):
                 probs.append("fields %s built from a variant with fields %s" % (names, want))
             else:
                 for nm, v in zip(names, r[5]):
-                    root, why = provenance(F, sc, p, v)
+                    root, why = provenance(F, sc, p, v, convs=convs)
                     base = ("D", ("P", src), sv["name"]) if ab["kind"] == "Enum" else ("P", src)
                     if why:
                         probs.append("field %s: %s" % (nm, why))
@@ -252,7 +274,7 @@ ALLOWED = ("Into::into", "From::from", "Box::<T>::new", "Iterator::map", "Iterat
            "Iterator::cloned")
 
 
-def provenance(F, sc, p, v, depth=0):
+def provenance(F, sc, p, v, depth=0, convs=()):
     """-> (source location, None) or (None, reason)"""
     v = norm(v)
     if depth > 8:
@@ -264,18 +286,51 @@ def provenance(F, sc, p, v, depth=0):
     if v[0] == "call":
         e = tbl.event_by_id(p, v[1])
         key = v[2] or ""
+        canon = ((e or {}).get("callee") or {}).get("canon")
+        if canon in convs:
+            if len(v[3]) != 1:
+                return None, "conversion %s called with %d arguments" % (key, len(v[3]))
+            return provenance(F, sc, p, v[3][0], depth + 1, convs)
         if not any(key.endswith(a) or a in key for a in ALLOWED):
             return None, "passes through %s (only into/Box::new/iter/map/collect are structure-preserving)" % key
         if "Iterator::map" in key:
             c = v[3][1]
+            while c[0] == "cast" and isinstance(c[2], tuple) and c[2]:
+                c = c[2]
+            if c[0] == "fn" and len(c) > 2 and isinstance(c[2], dict):
+                # a function item: must itself be a conversion (a From/Into instance or one of this crate's fn(&Borrowed) -> Owned)
+                full = c[1] or ""
+                if c[2].get("canon") in convs or re.search(r"(Into|From)>?::(into|from)\b", full):
+                    return provenance(F, sc, p, v[3][0], depth + 1, convs)
+                return None, "elements are mapped with %s, expected the element's own conversion" % full
             cc = c[2] if c[0] == "agg" else c[1] if c[0] == "closure" else None
             cf = F.fn_by_canon(cc) if cc else None
             if cf is None:
                 return None, "map closure not found"
-            import summ2
-            ls = [o["text"] for o in summ2.summarize(F, cf, inline=lambda g, ev: False)["outcomes"]]
-            if not (len(ls) == 1 and (re.match(r"^#1 = <[^<>]*(<[^<>]*>)?[^<>]* as (Into|From)>::(into|from)\(\*?arg2\) => #1$", ls[0])
-                                      or re.match(r"^- => (into|from)::<[^()]*>\(\*?arg2\)$", ls[0]))):
-                return None, "elements are mapped with %s, expected the element's own conversion |i| (*i).into()" % ls
-        return provenance(F, sc, p, v[3][0], depth + 1)
+            why = closure_converts(F, cf, convs)
+            if why:
+                return None, why
+        return provenance(F, sc, p, v[3][0], depth + 1, convs)
     return None, "unrecognised value %s" % sym.show(v)
+
+
+def closure_converts(F, cf, convs):
+    """the map closure must be |i| <conversion>(i) / (*i).into(): one path, returning the result of one conversion call on its argument"""
+    ps = [q for q in sym.Engine(F, max_visits=2, inline=lambda g, ev: False).run(cf) if q.status != "diverge"]
+    if len(ps) != 1 or ps[0].status != "return" or ps[0].ret[0] != "call":
+        return "elements are not mapped with a single conversion call (%s)" % ", ".join(sym.show(q.ret)[:80] if q.ret else q.status for q in ps)
+    q = ps[0]
+    e = tbl.event_by_id(q, q.ret[1])
+    calls = [x for x in q.events if x["k"] == "call"]
+    key = q.ret[2] or ""
+    canon = ((e or {}).get("callee") or {}).get("canon")
+    if len(calls) != 1 or not (canon in convs or re.search(r"(Into|From)>?::(into|from)\b", key)):
+        return "elements are mapped with %s, expected the element's own conversion |i| (*i).into()" % [x["name"] for x in calls]
+    a = norm(e["args"][0]) if len(e["args"]) == 1 else None
+    while a and a[0] in ("deref", "copy"):
+        a = norm(a[1])
+    if a and a[0] == "init" and a[1][0] == "P":
+        a = a[1][1]
+    if not (a and a[0] == "param" and a[1] == 2):
+        return "the conversion in the map closure is not applied to the element (%s)" % sym.show(e["args"][0] if e["args"] else None)
+    return None
